@@ -1,7 +1,7 @@
 // Command distincttrace drives distinct.Counter of the working tree through a scripted random
 // source (hook NewCounterWithSource) and records what it shows after every operation.
 //
-//	H <cap> <words> <oracles> <ops> | <len>:<count>:<p>;... B=<sorted buffer>
+//	H <cap> <words> <oracles> <ops> | <len>:<count>:<p>:<words drawn by the operation>;... B=<sorted buffer>
 //
 // words    the 64-bit words the source returns, in order (decimal, comma separated, "." = none);
 //
@@ -159,6 +159,7 @@ func runCase(cp int, ops []op, src *source) (oracles, output string, inf info) {
 	seen := map[int]bool{}
 	failed := ""
 	for i, o := range ops {
+		drawn := len(src.used)
 		if !o.add {
 			c.Reset()
 			inf.reset = true
@@ -214,7 +215,7 @@ func runCase(cp int, ops []op, src *source) (oracles, output string, inf info) {
 			failed = pk
 			break
 		}
-		obs = append(obs, fmt.Sprintf("%d:%d:%d", c.Len(), cnt, c.VerifP()))
+		obs = append(obs, fmt.Sprintf("%d:%d:%d:%d", c.Len(), cnt, c.VerifP(), len(src.used)-drawn))
 	}
 	out := strings.Join(obs, ";")
 	if out == "" {
